@@ -37,3 +37,26 @@ Definition gen_inputs (r : registry) (s : settings) : tokens :=
 (** generation followed by emission *)
 Definition gen_emit (r : registry) (s : settings) (teq : N -> N -> result bool) : result tokens :=
   let* m := generate r s teq in emit_module s m.
+
+(** ** frame hypotheses of the C09 commutation theorems: what a token renaming
+    [phi] between two settings [s1], [s2] must satisfy *)
+(** for path resolution *)
+Definition resolve_frame (phi : string -> string) (r : registry) (s1 s2 : settings) : Prop :=
+  phi_ok phi false false /\
+  s_subs s2 = s_subs s1 /\
+  s_root s2 = phi (s_root s1) /\
+  alloc_tokens (s_alloc s2) = map phi (alloc_tokens (s_alloc s1)) /\
+  s_compact s2 = option_map (map phi) (s_compact s1) /\
+  s_bits s2 = option_map (map phi) (s_bits s1) /\
+  (forall e seg, In e r -> In seg (t_path (snd e)) -> phi seg = seg) /\
+  (forall k v x, In (k, v) (s_subs s1) -> In x (print_spath (su_path v)) -> phi x = x).
+
+(** for the whole generation *)
+Definition gen_frame (phi : string -> string) (r : registry) (s1 s2 : settings) : Prop :=
+  resolve_frame phi r s1 s2 /\
+  s_docs s2 = s_docs s1 /\ s_codec s2 = s_codec s1 /\ s_dreg s2 = s_dreg s1 /\
+  s_compact_as s2 = s_compact_as s1 /\
+  (forall w, In w (registry_idents r) -> phi w = w) /\
+  (forall w, In w (flat_map derives_inputs (derives_list (s_dreg s1))) -> phi w = w) /\
+  (forall w, In w (match s_compact_as s1 with Some k => snd k | None => [] end) -> phi w = w).
+
